@@ -14,15 +14,18 @@
 (*           out[i] scaled result of the prior callback                    *)
 (*   like  : x[i] scaled point handed to the callback, before / after      *)
 (*           projections, oc = outcome of the independent oracle model     *)
-(*           ("ok" or exception class), ret = "num" | "nan" | "raise",     *)
+(*           ("ok", exception class, "NaNAll" = the oracle model has NaN   *)
+(*           in every bin without raising, "NaNSome" = in some bins),      *)
+(*           ret = "num" | "nan" | "raise",                                *)
 (*           chi = round(-2 (ret - C) * 10^4), zs[b] = round(100 z_b) of   *)
 (*           the oracle's residuals z_b = (data_b - binned_b)/sigma_b      *)
+(*           over the comparable (non-NaN) bins                            *)
 (* A trace stops at its first rejected event (stateful); every rejected    *)
 (* tid is printed as <<"BAD", ..>>.                                        *)
 (***************************************************************************)
 EXTENDS Integers, Sequences, FiniteSets, TLC, Json, IOUtils, TLCExt, LikeRules
 VARIABLES l, tid, st, dead
-\* st = [kinds, par, nfit, proj, memo]   memo: set of <<x, chi>> of finite calls seen in this trace
+\* st = [kinds, par, nfit, proj, memo]   memo: set of <<x, chi>> of finite valid (oc = "ok") calls seen in this trace
 TraceLog == ndJsonDeserialize(IOEnv.TRACE_FILE)
 
 RECURSIVE SumSq(_), SumAbs(_)
@@ -45,10 +48,11 @@ LikeOk(s, e) ==
     /\ \A i \in 1..s.nfit : Abs(e.after[i] - e.x[i]) <= 1                  \* WrittenIsPriorOfX, OrderIsFitOrder
     /\ \A j \in (s.nfit + 1)..n : Abs(e.after[j] - e.before[j]) <= 1      \* OnlyFittedWritten
     /\ e.ret # "raise"                                                     \* NeverRaises
-    /\ e.ret = ResultKind(e.oc, AllClasses, "value", <<1, 1>>)            \* InvalidNeverFinite / finite when valid
+    /\ LET k == ResultKind(e.oc, AllClasses, "value", "nan", <<1, 1>>)    \* InvalidNeverFinite (exception classes and
+       IN  IF k = "part" THEN e.ret \in {"num", "nan"} ELSE e.ret = k      \* "NaNAll") / finite when valid / PartialSkipsOrNaN
     /\ (e.ret = "num" /\ ~e.big) =>
           Abs(e.chi - SumSq(e.zs)) <= SumAbs(e.zs) + Len(e.zs) + 2        \* ValidEqualsGaussian (structure level)
-    /\ (e.ret = "num") => \A m \in s.memo : m[1] = e.x => Abs(m[2] - e.chi) <= 1   \* NoCarryOver
+    /\ (e.ret = "num" /\ e.oc = "ok") => \A m \in s.memo : m[1] = e.x => Abs(m[2] - e.chi) <= 1   \* NoCarryOver
 
 Init == l = 1 /\ tid = -1 /\ dead = -1 /\ st = [kinds |-> <<>>, par |-> <<>>, nfit |-> 0, proj |-> <<>>, memo |-> {}]
 Bad(e, why) == PrintT(<<"BAD", ToJson([l |-> l, tid |-> e.tid, id |-> e.id, why |-> why])>>)
@@ -66,7 +70,7 @@ Step ==
             ELSE Bad(e, "prior") /\ dead' = e.tid /\ UNCHANGED <<tid, st>>
        ELSE IF LikeOk(st, e)
             THEN /\ st' = [st EXCEPT !.proj = e.after,
-                                     !.memo = IF e.ret = "num" THEN st.memo \cup {<<e.x, e.chi>>} ELSE st.memo]
+                                     !.memo = IF e.ret = "num" /\ e.oc = "ok" THEN st.memo \cup {<<e.x, e.chi>>} ELSE st.memo]
                  /\ UNCHANGED <<tid, dead>>
             ELSE Bad(e, "like") /\ dead' = e.tid /\ UNCHANGED <<tid, st>>
 Spec == Init /\ [][Step]_<<l, tid, st, dead>>
